@@ -191,6 +191,29 @@ htp_cfg_t *htp_config_copy(htp_cfg_t *cfg) {
     if (copy == NULL) return NULL;
     memcpy(copy, cfg, sizeof (htp_cfg_t));
 
+    // The copy does not own any hook yet: if copying one of them fails,
+    // destroying the copy must not destroy the hooks of the original.
+    copy->hook_request_start = NULL;
+    copy->hook_request_line = NULL;
+    copy->hook_request_uri_normalize = NULL;
+    copy->hook_request_header_data = NULL;
+    copy->hook_request_headers = NULL;
+    copy->hook_request_body_data = NULL;
+    copy->hook_request_file_data = NULL;
+    copy->hook_request_trailer = NULL;
+    copy->hook_request_trailer_data = NULL;
+    copy->hook_request_complete = NULL;
+    copy->hook_response_start = NULL;
+    copy->hook_response_line = NULL;
+    copy->hook_response_header_data = NULL;
+    copy->hook_response_headers = NULL;
+    copy->hook_response_body_data = NULL;
+    copy->hook_response_trailer = NULL;
+    copy->hook_response_trailer_data = NULL;
+    copy->hook_response_complete = NULL;
+    copy->hook_transaction_complete = NULL;
+    copy->hook_log = NULL;
+
     // Now create copies of the hooks' structures.
 
     if (cfg->hook_request_start != NULL) {
